@@ -273,8 +273,15 @@ def analyse_skeleton(I: Interp, pattern: Any, root_role: str = "instr") -> List[
         caps: List[str] = []
         for ev in path.events:
             if ev.kind == "construct" and ev.cls == "CapturesManager":
+                # the registered names, in registration order: through the manager's public view of them (whatever the
+                # manager keeps internally)
                 lst = ev.obj.fields.get("_capture_group_references")
-                if isinstance(lst, ListV):
+                if not isinstance(lst, ListV) and ev.obj.cls.find_method("capture_group_references") is not None:
+                    try:
+                        lst = I.call_func(ev.obj.cls.find_method("capture_group_references"), [], {}, ev.obj, None, None)
+                    except (RaiseEx, AnalysisError):
+                        lst = None
+                if isinstance(lst, ListV) and lst.absorbed is None:
                     caps = [x.text() if isinstance(x, Str) and x.is_concrete() else repr(x) for x in lst.items]
         for n in root.walk():
             if n.regex is None or n.tmpl is None:
